@@ -11,12 +11,12 @@ RUN_MODULE = "C04.Run"
 RUN_FN = "run_case"
 HARNESS_BIN = "c04"
 HARNESS_BINS = ["c04", "c04bb"]
-SHRINK_KEEP = ("rx", "idna", "probe", "permcheck", "tget")
+SHRINK_KEEP = ("rx", "idna", "probe", "hashost", "permcheck", "tget")
 CLAIMED = True
 RULE = ("cases: histories of 1-14 add/del of HttpFrontend (position pre/tree/post; hostnames from a colliding pool of "
         "exact, wildcard, '*', nested, regex-segment and malformed names; PREFIX/EQUALS/REGEX paths that are prefixes of "
         "each other; optional method; cluster / deny / redirect / auth policies), pre/post families with 3-8 overlapping rules and removals of first/middle elements, probes (host, path, method) after the "
-        "history and between its operations, then `permcheck` (the implementation is rebuilt from the live tree "
+        "history and between its operations, `hashost` (Router::has_hostname) right after removals, after some adds and over the probed names at the end, then `permcheck` (the implementation is rebuilt from the live tree "
         "frontends in every order for <= 4 of them). Regex answers for every (regex, string) pair of the case are "
         "computed by the real regex crate (c04 --tables) and given to the model as `rx` rows. Non-trivial and distinct: "
         ">= 2 successful adds to the tree, >= 1 successful removal or refused duplicate, and probes with >= 2 distinct "
@@ -480,6 +480,25 @@ def with_tables(cases):
     return cases
 
 
+def with_hashost(rng, c):
+    """Router::has_hostname is asked by the listeners right after a removal, about the removed frontend's name:
+    ask it there (and, at the end, about the probed names), for names as configured (Unicode included)"""
+    ops = []
+    for op in c.ops:
+        ops.append(op)
+        if op[0] == "del" and rng.random() < 0.8:
+            ops.append(["hashost", op[2]])
+        elif op[0] == "add" and rng.random() < 0.15:
+            ops.append(["hashost", op[2]])
+    hosts = sorted({op[1] for op in c.ops if op[0] == "probe"})
+    rng.shuffle(hosts)
+    tail = [["hashost", h] for h in hosts[:4]]
+    pos = next((i for i, op in enumerate(ops) if op[0] == "permcheck"), len(ops))
+    ops[pos:pos] = tail
+    c.ops = ops
+    return c
+
+
 def gen_cases(rng, tier):
     n = {"quick": 1800, "thorough": 40000, "search": 12000}.get(tier, 1800)
     out = []
@@ -500,6 +519,7 @@ def gen_cases(rng, tier):
             out.append(trie_case(rng, "t%d" % i))
         else:
             out.append(history_case(rng, "b%d" % i, "bad"))
+    out = [c if c.id.startswith("t") else with_hashost(rng, c) for c in out]
     return with_tables(out)
 
 
